@@ -55,7 +55,6 @@ type faultPlan struct {
 	mmArmed  bool
 	mmMerged bool            // the merged segment of that grab has been written
 	mmFired  map[string]bool // which mm- categories fired
-	openFaultPending bool    // a Lock / List of the OpenWriter in progress was made to fail
 }
 
 const faultsRule = "a generated batch history (as in the stream `recover`, plus clean reopens and reader observations) run on a real index.Writer over a real FileSystemDirectory through a recording Directory with a fault injector underneath: one fault per case in the quick tier (two in the thorough tier) on the k-th operation of a category — Persist of a snapshot / a segment / a merged segment (before any byte, after a partial write, after the full write), Load of a snapshot / a segment, List of snapshots / segments, Remove of a snapshot / a segment — transient or repeated on the next operations of the category. Observed: every Batch return value, every AsyncError call, a fresh Reader's documents after every step, the directory listing after every record, no hang (time-outs), crash images of the faulted trace opened by the real OpenReader/OpenWriter in child processes, and that the acknowledgement following a failure covers everything applied before it. One evaluation = one record or one crash image; a case is non-trivial when its fault fired and distinct by fault plan + event-kind sequence"
@@ -239,28 +238,7 @@ func (w cutWriterTo) WriteTo(out io.Writer, _ chan struct{}) (int64, error) {
 func (d *faultDir) Setup(ro bool) error     { return d.inner.Setup(ro) }
 func (d *faultDir) Stats() (uint64, uint64) { return d.inner.Stats() }
 func (d *faultDir) Sync() error             { return d.inner.Sync() }
-func (d *faultDir) Lock() error {
-	if bad, _ := d.p.check("lock", false); bad {
-		d.p.noteOpenFault("lock")
-		return errInjected
-	}
-	return d.inner.Lock()
-}
-
-// noteOpenFault: a fault on a directory call OpenWriter makes on a NON-EMPTY index
-func (p *faultPlan) noteOpenFault(what string) {
-	p.mu.Lock()
-	p.openFaultPending = true
-	p.mu.Unlock()
-	p.c.mu.Lock()
-	nonEmpty := len(p.c.files) > 0
-	p.c.mu.Unlock()
-	if nonEmpty {
-		p.mu.Lock()
-		p.mmFired["open-"+what] = true
-		p.mu.Unlock()
-	}
-}
+func (d *faultDir) Lock() error             { return d.inner.Lock() }
 func (d *faultDir) Unlock() error           { return d.inner.Unlock() }
 
 func (d *faultDir) List(kind string) ([]uint64, error) {
@@ -269,7 +247,6 @@ func (d *faultDir) List(kind string) ([]uint64, error) {
 		op = "list-snap"
 	}
 	if bad, _ := d.p.check(op, false); bad {
-		d.p.noteOpenFault(op)
 		return nil, errInjected
 	}
 	l, err := d.inner.List(kind)
@@ -580,27 +557,6 @@ func (h *HR) genFaults(r *hlib.Rand, tier string, scale int, emit func(string)) 
 				}
 				emit("end")
 			}
-		}
-		// deliberate: one transient fault on a directory call OpenWriter makes when it REOPENS a non-empty index — Lock, the
-		// listing of the snapshots, the listing of the segments. OpenWriter must return the error; the next open succeeds,
-		// batches are acknowledged again and the content is exact
-		for _, op := range []string{"list-seg", "list-snap", "lock"} {
-			emit(fmt.Sprintf("case %d n=%d unsafe=0 merge=2 jit=0 seed=%d fop=%s fidx=2 fplace=before fcount=1", ci, 1+ci%3, r.Intn(1<<30), op))
-			ci++
-			for i := 0; i < 2+round%2; i++ {
-				tok++
-				emit("b " + batchSpec{tok: tok, keys: []int{i % 2}}.String())
-			}
-			emit("rd")
-			emit("reopen") // the faulted open
-			emit("reopen") // the fault has cleared
-			emit("rd")
-			tok++
-			emit("b " + batchSpec{tok: tok, dels: []int{tok - 1}}.String())
-			tok++
-			emit("b " + batchSpec{tok: tok}.String())
-			emit("rd")
-			emit("end")
 		}
 		for ki, k := range kinds {
 			n := 1 + (ci % 3)
